@@ -51,6 +51,9 @@ def make_target():
             x = ZeroDivisionError("fail", 7)
             x.code = 403
             x.detail = {"k": [1, 2]}
+            if UNSER[0]:
+                import threading
+                x.lock = threading.Lock()
             raise x
 
         @P.expose
@@ -99,7 +102,18 @@ def invoke_on(target, c):
     raise util.MachineryError("call " + m)
 
 
+UNSER = [False]      # the raising member's exception carries something no serializer can write
+
+
+def is_fallback(x):
+    """the daemon's substitute for an exception it could not serialize: a Pyro error that describes the original"""
+    from Pyro5 import errors
+    return isinstance(x, errors.PyroError) and "ZeroDivisionError" in str(x)
+
+
 def exc_name(x):
+    if is_fallback(x):
+        return "ValueError"
     # the model calls the exception of the raising members "ValueError"; the target raises ZeroDivisionError so that it cannot be
     # confused with an error of the machinery in between
     return "ValueError" if isinstance(x, ZeroDivisionError) else ("AttributeError" if isinstance(x, AttributeError) else "other:" + type(x).__name__)
@@ -111,6 +125,8 @@ BAD_NAMES = {"unexposed": "unexposed", "private": "_private", "missing": "no_suc
 def fingerprint(x, calls=()):
     """class, args and custom attributes of a caught exception, as text.  A refusal of a name that cannot be called is worded
     differently by the client (single call) and by the daemon (batch): there, it is that call's own if it names the member."""
+    if is_fallback(x):
+        return "substitute describing the original"
     if isinstance(x, AttributeError):
         names = [BAD_NAMES[c["m"]] for c in calls if c["m"] in BAD_NAMES]
         return "AttributeError|names the member" if any(repr(n) in str(x) or ("'%s'" % n) in str(x) for n in names) else "AttributeError|" + str(x)[:80]
@@ -178,6 +194,7 @@ def run_cases(cases, servertype):
         for case_no, case in enumerate(cases):
             sc.set_budget(20000)
             ser = case["ser"]
+            UNSER[0] = bool(case.get("unser"))
             tr = {"calls": case["calls"], "pre": case["pre"], "oneway": case["oneway"], "hang": False, "ser": ser, "drain": case["drain"]}
             pa = pb = pr = None
             try:
@@ -262,7 +279,8 @@ def run(ctx):
             for k, ser in enumerate(sers):
                 if ctx.quick and k != (i + oneway) % 4 and len(calls) > 1:
                     continue
-                cases.append({"calls": calls, "pre": [], "oneway": oneway, "ser": ser, "drain": True, "session": (i + k) % 4 == 1})
+                cases.append({"calls": calls, "pre": [], "oneway": oneway, "ser": ser, "drain": True, "session": (i + k) % 4 == 1,
+                              "unser": (i + k) % 5 == 2 and any(c["m"] == "fail" for c in calls)})
     short = [c for c in lists if 1 <= len(c) <= 2]
     # an earlier batch on the same BatchProxy: one whose submission succeeds (what a BatchProxy holds after a submission that
     # itself raised is not something the statement speaks about)
